@@ -5,6 +5,7 @@ set -e
 cd "$(dirname "$0")"
 export CARGO_NET_OFFLINE=true
 python3 tools/rs2v.py
+python3 tools/gen_spec_tables.py
 python3 - <<'PY'
 import sys
 sys.path.insert(0, ".")
